@@ -21,6 +21,12 @@ inductive Tok (α : Type)
   | tried (x : α)             -- `x.report_mismatch(os, params)`: the "Tried …" explanation of expectation `x`
   deriving DecidableEq, Repr
 
+/-- `*found = std::move(v.back());` on a vector held as a list (`found` = the index `std::find_if` returned, if any). -/
+def assignFromBack {β : Type} (v : List β) (found : Option Nat) : List β :=
+  match found, v.getLast? with
+  | some i, some l => v.set i l
+  | _, _ => v
+
 /-- what `hexdump` inserts into the stream, manipulators included. -/
 inductive HTok
   | sentry                 -- `stream_sentry s(os)`
